@@ -326,12 +326,21 @@ def _links_parse(c, ctx):
     return c
 
 
+def _unwrap_copy(v):
+    """list(x) / tuple(x): a copy has the length of the original"""
+    while isinstance(v, Sym) and v.op in ('list', 'tuple') and len(v.args) == 1:
+        v = v.args[0]
+    return v
+
+
 def _links_compose(c, ctx, lay):
     # map value identity -> elements
     by_val = {}
     for e in c.flat:
         if e.val is not None and e.kind in ('raw', 'array', 'narray', 'nested', 'text', 'repeat', 'flags', 'mpint', 'sshmpint'):
             by_val.setdefault(_vkey(e.val), []).append(e)
+            if _unwrap_copy(e.val) is not e.val:
+                by_val.setdefault(_vkey(_unwrap_copy(e.val)), []).append(e)
     by_comp = {}
     for e in c.flat:
         if e.op is not None and hasattr(e.op, 'target') and isinstance(getattr(e.op, 'target', None), ComposerV):
@@ -369,7 +378,7 @@ def _links_compose(c, ctx, lay):
                 els = positions_of_bytes(x)
                 top = _top_level(els)
                 return ('bytes', tuple(id(e) for e in top))
-            els = by_val.get(_vkey(x))
+            els = by_val.get(_vkey(x)) or by_val.get(_vkey(_unwrap_copy(x)))
             if els:
                 e = els[0]
                 unit = 'count' if e.kind in ('array', 'narray', 'repeat') else 'bytes'
